@@ -2,6 +2,19 @@
 """Regenerates MANIFEST.json from the table below (kept in one place so it stays valid)."""
 import json, subprocess
 CLAIMED = {
+ "C17": dict(cat="exploration", tech="deterministic simulation: two-run relation prune_types(build All) vs build CodeOnly, each run under its own seeded schedule and hash seed",
+   text="For generated worlds satisfying the statement's proviso, the pruned full graph and an independently scheduled code-only build are compared on entries, redirects, code edges and validation verdict, and the pruned graph must carry no type data. Sampled by seed.",
+   note="Frozen cache and identity-keyed answers make the two runs see the same sources. Bounds: builds follow dynamic dependencies (prune_types cannot know skip_dynamic_deps), redirect limit kept away from generated chain lengths, no lockfile, structural comparison skipped when configured (type) imports exist. Two context-dependence deviations are listed as known findings.", ref="DESIGN.md §3 C17"),
+ "C18": dict(cat="exploration", tech="deterministic simulation: graphs built under seeded schedules; segment compared with the original (lookups, validation over all walk options) and with an independently scheduled direct build of the segment roots",
+   text="(i) every lookup and every walk-validation answer inside the segment equals the original's; (ii) for root sets that are not a subset of the original roots, the segment equals a direct build of those roots. Sampled by seed; known context-dependence deviations (root defaults, attribute-less JSON in dynamic branches, jsr version unification) are listed findings.",
+   note="Same-attribute proviso enforced by the generator; segment roots chosen among loaded (non-asset) modules; no lockfile.", ref="DESIGN.md §3 C18"),
+ "C19": dict(cat="exploration", tech="deterministic simulation of histories on one graph: successive builds over a drawn root partition, rebuild with known roots, edit + reload, each operation under its own seeded schedule; compared with from-scratch builds",
+   text="Histories (partition builds, idempotent rebuild, edit one module then reload it) are compared with at-once / from-scratch builds of the same (edited) world. Sampled by seed; deviations caused by first-visitor context and visit-order-dependent jsr unification are listed findings.",
+   note="Partition equality ignores which importer is named as referrer; reload oracle applies when the edited module is in the graph.", ref="DESIGN.md §3 C19"),
+ "C20": dict(cat="exploration", tech="deterministic simulation with content faults at the loader seam (torn / truncated / bit-flipped / invalid byte sequences, charset labels) and an independent reference decoder over the seam's byte log",
+   text="Every text module admitted to the graph must hold exactly the reference decoding of the bytes the seam logged, unknown charset labels must become error entries, original bytes must be absent or byte-equal to the served bytes, size must equal the text length. Sampled by seed over encodings x labels x media x origin x registry content-load path.",
+   note="Reference decoder is std-only (WHATWG semantics restated for UTF-8/UTF-16/windows-1252).", ref="DESIGN.md §3 C20"),
+
  "C02": dict(cat="exploration", tech="deterministic simulation: graphs built by the real builder under seeded schedules from worlds with placed failures; validation verdict compared with a declarative reachable-failure set over all walk options",
    text="On every graph the simulator produces (failures placed behind static, dynamic, type-only, types-dependency edges and redirect chains), for all 36 walk-option combinations and 4 root subsets validate() must be Err exactly when the reference reachable-failure set is non-empty and must return a member of it. The verdict side is exact per graph; the population of graphs is sampled by seed.",
    note="The reference shares no code with the iterators but restates their edge-selection and resolution-policy rules; a world-level verdict oracle (independent of the graph's own records) is part of C01's model when claimed.", ref="DESIGN.md §3 C02"),
